@@ -293,9 +293,8 @@ def start(F, res, pol):
             continue
         if not is_ok(w):
             continue
-        m = cfield(w.value, '0')
-        while m is not None and m[0] == 'call' and m[1] in ('loop_carried', 'loop_result'):
-            m = m[2][1]
+        from heval import strip_after
+        m = strip_after(cfield(w.value, '0'))
         v = cfield(m, 'start') if m is not None and m[0] == 'ctor' else None
         if v is None:
             continue
